@@ -13,7 +13,7 @@ def lowerAscii (s : Str) : Str := s.map fun c => if 65 ≤ c ∧ c ≤ 90 then c
       <delim> <tail> <hdr> <query> <lines> => <exit> <records> -/
 def run (ctx : Algo.Ctx) (op : String) (args impl : List String) : Outcome :=
   match op, args with
-  | "run", [sch, tie, exact, algo, ext, cm, literal, sort, tac, nth, withnth, delim, tail, hdr, q, lines] =>
+  | "run", [_argvSeed, sch, tie, exact, algo, ext, cm, literal, sort, tac, nth, withnth, delim, tail, hdr, q, lines] =>
     let cfg : Cfg := { U := ctx.unicode, sch := Algo.scheme sch, norm := ctx.norm }
     let crit : Option (List Criterion) :=
       if tie == "-" then some (schemeCriteria sch) else parseTiebreak (lowerAscii (parseNatList tie))
